@@ -110,6 +110,10 @@ func (alg *algorithm) Decrypt(cek, iv, aad, ciphertext, authTag []byte) (plainte
 	}
 	toRemove, good := extractPadding(plaintext)
 
+	// PKCS #7 padding is 1 to size octets long; RFC 7518 Section 5.2.2.2.
+	inRange := subtle.ConstantTimeLessOrEq(1, toRemove) & subtle.ConstantTimeLessOrEq(toRemove, size)
+	good &= byte(subtle.ConstantTimeSelect(inRange, 0xff, 0))
+
 	// check the authentication tag
 	expectedAuthTag := alg.calcAuthTag(mac, aad, iv, ciphertext)
 	cmp := subtle.ConstantTimeCompare(authTag, expectedAuthTag) & int(good)
